@@ -213,7 +213,12 @@ func (server *Server) Validate(ctx context.Context, opts ...ValidationOption) (e
 		return errors.New("server URL has mismatched { and }")
 	}
 
-	if opening != len(server.Variables) {
+	// every "{...}" of the URL is a declared variable (which may be used more than once)
+	used := 0
+	for name := range server.Variables {
+		used += strings.Count(server.URL, "{"+name+"}")
+	}
+	if opening != used {
 		return errors.New("server has undeclared variables")
 	}
 
